@@ -101,7 +101,9 @@ class SchemaField:
                 err = SchemaField._validate_value_datetime(value, "%H:%M:%S")
             elif t == "MONTHYEAR":
                 err = SchemaField._validate_value_monthyear(value)
-            elif t in {"DATA", "LENGTH"}:
+            elif t == "LENGTH":
+                err = SchemaField._validate_value_number(value, int)
+            elif t == "DATA":
                 # just hoping the data is ok
                 err = None
             else:
@@ -431,11 +433,10 @@ class SchemaGroup(SchemaSet):
                 )
 
             for st, sv in tag_fields.items():
-                if isinstance(sv, SchemaField):
-                    if sv.tag not in fmsg and self.required[sv]:
-                        raise FIXMessageError(
-                            f"fixmessage={groups} missing required field {repr(sv)}"
-                        )
+                if sv.tag not in fmsg and self.required[sv]:
+                    raise FIXMessageError(
+                        f"fixmessage={groups} missing required field {repr(sv)}"
+                    )
 
     def __repr__(self):
         """Repr."""
@@ -540,7 +541,7 @@ class FIXSchema:
                     # Group also refers to other component, postpone it
                     has_circular_refs = True
                     continue
-                component.add(g, g.required)
+                component.add(g, g.field_required)
 
         if has_circular_refs:
             return None
@@ -696,9 +697,8 @@ class FIXSchema:
             schema_fields.add(fname)
 
             if req:
-                if isinstance(f, SchemaField):
-                    if f.tag not in msg:
-                        raise FIXMessageError(f"Missing required field={repr(f)}")
+                if f.tag not in msg:
+                    raise FIXMessageError(f"Missing required field={repr(f)}")
 
         if "8" in msg:
             self._validate_header(msg)
